@@ -55,6 +55,7 @@ def cases_for(prop, tier):
         yield {'stack': 'get', 'vec': 'sw', 'pending': True, 'twice': True}
     elif prop == 'C20':
         yield {'stack': 'same-uid', 'n': 2}
+        yield {'stack': 'same-uid', 'n': 2, 'pre': True}       # the instance is already in the directory
         if thorough:
             yield {'stack': 'same-uid', 'n': 3}
         yield {'stack': 'artim-next-to-echo', 'count_all': True}
@@ -334,6 +335,9 @@ def make(case):
                     ds.seek(pos)
                     log.append(('stored', getattr(ds, 'name', None), raw))
                     return statuses.SUCCESS
+            if case.get('pre'):
+                with open(os.path.join(tmp, '1.2.5.1.dcm'), 'wb') as fh:
+                    fh.write(b'EARLIER-COPY')
             arch = Archive(tmp, 'SCP', 0, [IMPL], 16384)
             arch.server_close()
             arch.add_scp(sopclass.storage_scp)
@@ -628,6 +632,9 @@ def judge(case, out):
         import os
         names = sorted(os.listdir(r['tmpdir'])) if os.path.isdir(r['tmpdir']) else []
         contents = [open(os.path.join(r['tmpdir'], nm), 'rb').read() for nm in names]
+        if case.get('pre') and b'EARLIER-COPY' not in contents:
+            viol.append((sig + ':earlier-file', 'the copy that was in the directory before is gone or changed; files now %r (%s)' % (
+                [(nm, len(c)) for nm, c in zip(names, contents)], where)))
         for L, raw in sorted(sent.items()):
             if sum(1 for c in contents if c.endswith(raw)) != 1:
                 viol.append((sig + ':files', 'after %d stores of one instance UID the directory holds %r; the content of client %s is in %d of them (%s)' % (
